@@ -4,6 +4,11 @@ All operation sequences up to a length bound on a FILE-backed journal x every
 SQL-step boundary, realised as an abrupt exit (os._exit) of a forked child, plus
 normal close.  The parent reopens the file with a fresh Journaler and compares
 with the reference model R5 (state after j-1 or j completed operations).
+
+Fault pass (run_fault_sequence): the last operation of a sequence FAILS once - one
+of its SQL statements raises (SQLite authorizer denies the m-th compilation action,
+every m) and the exception reaches the caller - then the process is killed or the
+journal closed; the reopened file shows the failed operation entirely or not at all.
 """
 import itertools
 import os
@@ -44,15 +49,15 @@ def alphabet(quick):
 
 
 # ---------------------------------------------------------------- reference model R5
-def model_run(ops):
+def model_run(ops, uids=None):
     """Returns list of states after 0..len(ops) completed operations, and per-op outcome.
-    state: {"sessions": {name: [next_in, next_out]}, "rows": {(name, dir, n): bytes}}"""
+    state: {"sessions": {name: [next_in, next_out]}, "rows": {(name, dir, n): bytes}}
+    uids: payload tags of the operations (default: 1-based position)."""
     st = {"sessions": {"s1": [1, 1]}, "rows": {}}
     states = [snapshot(st)]
     outcomes = []
-    uid = 0
-    for op in ops:
-        uid += 1
+    for pos, op in enumerate(ops):
+        uid = uids[pos] if uids is not None else pos + 1
         k = op[0]
         oc = "ok"
         if k == "create":
@@ -102,53 +107,62 @@ def comp(name):
     return (T, S) if name == "s1" else (S, T)
 
 
-def execute(path, ops, steps, marks):
-    """Run ops on the real Journaler; marks gets (op_index, steps_done_after_op)."""
+def apply_op(jh, sess, op, uid, path):
+    """One operation of the alphabet on the real Journaler jh[0] (jh is the ONLY reference to it: close+reopen must
+    really drop the old connection before the new one is opened)."""
     from asyncfix import Journaler
     from asyncfix.errors import DuplicateSeqNoError
     from asyncfix.message import MessageDirection
 
-    j = Journaler(path)
-    sess = {"s1": j.create_or_load(*comp("s1"))}
+    j = jh[0]
+    k = op[0]
+    if k == "create":
+        sess[op[1]] = j.create_or_load(*comp(op[1]))
+    elif k == "store":
+        _, s, d, n = op
+        if s in sess:
+            try:
+                j.persist_msg(payload(n, f"u{uid}"), sess[s], MessageDirection.INBOUND if d == "in" else MessageDirection.OUTBOUND)
+                # keep the live session object in step, as the connection does (allocate / set_next_num_in)
+                if d == "in":
+                    sess[s].next_num_in = n + 1
+                else:
+                    sess[s].next_num_out = n + 1
+            except DuplicateSeqNoError:
+                pass
+    elif k == "set":
+        _, s, o, i = op
+        if s in sess:
+            j.set_seq_num(sess[s], next_num_out=o, next_num_in=i)
+    elif k == "sseq":
+        _, s, o, i = op
+        if s in sess:
+            sess[s].next_num_out, sess[s].next_num_in = o, i
+            j.store_seq_num(sess[s])
+    elif k == "reopen":
+        names = list(sess)
+        del j
+        jh[0] = None
+        sess.clear()
+        import gc
+        gc.collect()
+        jh[0] = Journaler(path)
+        for nm in names:
+            sess[nm] = jh[0].create_or_load(*comp(nm))
+
+
+def execute(path, ops, steps, marks, sess_out=None):
+    """Run ops on the real Journaler; marks gets (op_index, steps_done_after_op)."""
+    from asyncfix import Journaler
+
+    jh = [Journaler(path)]
+    sess = {} if sess_out is None else sess_out
+    sess["s1"] = jh[0].create_or_load(*comp("s1"))
     marks.append((-1, steps.n))
-    uid = 0
     for idx, op in enumerate(ops):
-        uid += 1
-        k = op[0]
-        if k == "create":
-            sess[op[1]] = j.create_or_load(*comp(op[1]))
-        elif k == "store":
-            _, s, d, n = op
-            if s in sess:
-                try:
-                    j.persist_msg(payload(n, f"u{uid}"), sess[s], MessageDirection.INBOUND if d == "in" else MessageDirection.OUTBOUND)
-                    # keep the live session object in step, as the connection does (allocate / set_next_num_in)
-                    if d == "in":
-                        sess[s].next_num_in = n + 1
-                    else:
-                        sess[s].next_num_out = n + 1
-                except DuplicateSeqNoError:
-                    pass
-        elif k == "set":
-            _, s, o, i = op
-            if s in sess:
-                j.set_seq_num(sess[s], next_num_out=o, next_num_in=i)
-        elif k == "sseq":
-            _, s, o, i = op
-            if s in sess:
-                sess[s].next_num_out, sess[s].next_num_in = o, i
-                j.store_seq_num(sess[s])
-        elif k == "reopen":
-            names = list(sess)
-            del j
-            sess.clear()
-            import gc
-            gc.collect()
-            j = Journaler(path)
-            for nm in names:
-                sess[nm] = j.create_or_load(*comp(nm))
+        apply_op(jh, sess, op, idx + 1, path)
         marks.append((idx, steps.n))
-    return j
+    return jh.pop()
 
 
 def observe(path):
@@ -370,6 +384,140 @@ def run_setup_crashes(real_crash):
         shutil.rmtree(d, ignore_errors=True)
 
 
+# ---------------------------------------------------------------- faulted operation (an SQL statement raises)
+class _NoSteps:
+    n = 0
+
+
+def fault_extras(quick):
+    """The one further COMMITTED operation run after the failed one (then the process is killed)."""
+    ex = [("store", "s1", "in", 3), ("store", "s1", "out", 3)]
+    if not quick:
+        ex += [("sseq", "s1", 7, 4), ("set", "s1", 5, 5), ("store", "s2", "out", 3), ("create", "s2")]
+    return ex
+
+
+def run_fault_sequence(ops, extras):
+    """The LAST operation of ops fails once: SQLite refuses its m-th statement-compilation action (authorizer DENY ->
+    sqlite3.DatabaseError raised by that statement, standing for disk full / locked / I/O error / interrupt between two
+    statements), for every m.  The exception propagates to the caller - the operation has not returned.  Then
+    (a) the process is killed, (b) the journal is closed normally, (c) one further operation commits, then kill.
+    After reopening, the failed operation must be visible entirely or not at all."""
+    import gc
+    import sqlite3
+
+    sqlproxy.uninstall()
+    if not ops or ops[-1][0] == "reopen":
+        return ("skip", 0, 0)
+    states, outcomes = model_run(ops)
+    if "disabled" in outcomes:
+        return ("skip", 0, 0)
+    j_idx = len(ops)
+    d = tempfile.mkdtemp(prefix="vf8f_", dir=("/dev/shm" if os.path.isdir("/dev/shm") else None))
+    n_exec = 0
+    n_points = 0
+    run_no = [0]
+
+    def copy(path0, tag):
+        dst = os.path.join(d, f"{tag}.db")
+        shutil.copyfile(path0, dst)
+        if os.path.exists(path0 + "-journal"):
+            shutil.copyfile(path0 + "-journal", dst + "-journal")
+        return dst
+
+    def one(m, extra):
+        """-> (n_authorizer_calls, denied_action, raised, [(ending, file, allowed_states)])"""
+        run_no[0] += 1
+        path0 = os.path.join(d, f"live{run_no[0]}.db")
+        sess = {}
+        jh = [execute(path0, ops[:-1], _NoSteps, [], sess_out=sess)]
+        cnt = [0]
+        denied = []
+
+        def auth(action, a1, a2, dbname, source):
+            i = cnt[0]
+            cnt[0] += 1
+            if i == m:
+                denied.append((action, a1, a2))
+                return sqlite3.SQLITE_DENY
+            return sqlite3.SQLITE_OK
+
+        conn = jh[0].conn           # the last operation is never close+reopen here
+        conn.set_authorizer(auth)   # also expires the cached statements: every statement of the operation is compiled again
+        raised = None
+        try:
+            apply_op(jh, sess, ops[-1], j_idx, path0)
+        except Exception as e:
+            raised = e
+        conn.set_authorizer(None)
+        out = []
+        if m < 0 or not denied:
+            del jh[:], conn, sess
+            gc.collect()
+            return cnt[0], None, raised, out
+        either = [states[j_idx - 1], states[j_idx]] if raised is not None else [states[j_idx]]
+        if extra is None:
+            out.append(("kill", copy(path0, f"k{run_no[0]}"), either))
+            del jh[:], conn
+            sess.clear()
+            gc.collect()
+            out.append(("close", copy(path0, f"c{run_no[0]}"), either))
+        else:
+            ex_ok = True
+            try:
+                apply_op(jh, sess, extra, j_idx + 1, path0)
+            except Exception:
+                ex_ok = False       # the further operation did not complete: not a scenario of this pass
+            if ex_ok:
+                allowed = []
+                if raised is not None:
+                    st_a, oc_a = model_run(list(ops[:-1]) + [extra], uids=list(range(1, j_idx)) + [j_idx + 1])
+                    if "disabled" not in oc_a:
+                        allowed.append(st_a[-1])
+                st_b, oc_b = model_run(list(ops) + [extra])
+                if "disabled" not in oc_b:
+                    allowed.append(st_b[-1])
+                    if len(allowed) == 2 or raised is None:
+                        out.append((f"then_{extra[0]}_kill", copy(path0, f"x{run_no[0]}"), allowed))
+            del jh[:], conn
+            sess.clear()
+            gc.collect()
+        return cnt[0], denied[0], raised, out
+
+    try:
+        try:
+            total, _, raised0, _ = one(-1, None)
+        except Exception as e:
+            return ("viol", {"signature": "operation_raised|" + type(e).__name__, "clause": "operations on the journal succeed",
+                             "detail": {"ops": ops, "error": repr(e)}, "replay": {"ops": ops, "fault": True, "T": CFG["T"], "S": CFG["S"]}}, 1)
+        if raised0 is not None:
+            return ("viol", {"signature": "operation_raised|" + type(raised0).__name__, "clause": "operations on the journal succeed",
+                             "detail": {"ops": ops, "error": repr(raised0)}, "replay": {"ops": ops, "fault": True, "T": CFG["T"], "S": CFG["S"]}}, 1)
+        n_exec += 1
+        for m in range(total):
+            for extra in [None] + list(extras):
+                _, denied, raised, outs = one(m, extra)
+                n_exec += 1
+                for ending, path, allowed in outs:
+                    n_points += 1
+                    try:
+                        obs = observe(path)
+                    except Exception as e:
+                        return ("viol", mkv("reopen_failed", f"{type(e).__name__}:after_failed_{ops[-1][0]}:{ending}", "reopening the file yields a usable journal",
+                                            ops, m, ending, {"error": repr(e), "denied": denied, "fault": True}, fault=True), n_exec)
+                    if not any(same(obs, st) for st in allowed):
+                        torn = obs["sessions"] != allowed[-1]["sessions"] and any(obs["rows"] == st["rows"] for st in allowed)
+                        what = "failed_operation_partially_applied"
+                        cause = f"{ops[-1][0]}:{'row_without_counter_or_reverse' if torn else 'state_not_a_boundary'}:{ending.split('_')[0] if ending.startswith('then') else ending}"
+                        return ("viol", mkv(what, cause, "the operation in flight is applied entirely or not at all, and a message row never exists without its "
+                                            "counter update (an operation whose SQL statement raised has not returned: it is in flight until the process dies)",
+                                            ops, m, ending, {"observed": obs, "allowed_states": allowed, "denied_action": denied, "raised": repr(raised),
+                                                             "extra_op": extra if ending.startswith("then") else None}, fault=True), n_exec)
+        return ("ok", n_points, n_exec)
+    finally:
+        shutil.rmtree(d, ignore_errors=True)
+
+
 def same(obs, st):
     if obs.get("mismatch_recover"):
         return False
@@ -398,14 +546,18 @@ def _strkeys(o):
     return o
 
 
-def mkv(what, cause, clause, ops, k, mode, det):
+def mkv(what, cause, clause, ops, k, mode, det, fault=False):
     det = _strkeys(dict(det, ops=ops, crash_after_steps=k, mode=mode))
-    return {"signature": f"{what}|{cause}", "clause": clause, "detail": det,
-            "replay": {"ops": ops, "T": CFG["T"], "S": CFG["S"]}}
+    rep = {"ops": ops, "T": CFG["T"], "S": CFG["S"]}
+    if fault:
+        rep["fault"] = True
+    return {"signature": f"{what}|{cause}", "clause": clause, "detail": det, "replay": rep}
 
 
 def _work(item):
     ops, real = item
+    if real == "fault":
+        return run_fault_sequence(ops, ())
     if ops == [("setup",)]:
         return run_setup_crashes(real)
     return run_sequence(ops, real_crash=real)
@@ -456,7 +608,10 @@ def run(ctx):
             seqs.append(list(a))
     ctx.rule = ("all operation sequences up to the length bound over {store out/in n, store in mirror session, set numbers, reset, "
                 "create mirror session, close+reopen} on a file-backed journal x every SQL-step boundary (abrupt exit of a forked "
-                "child) + normal close; non-trivial = sequence with at least one store and one set/reopen")
+                "child) + normal close; non-trivial = sequence with at least one store and one set/reopen.  Fault pass: sequences "
+                "up to fault_max_len whose LAST operation fails once - SQLite refuses (authorizer DENY -> DatabaseError raised to the "
+                "caller) the m-th statement-compilation action of that operation, every m incl. BEGIN/COMMIT - then kill | normal close; "
+                "reopened file = state before or after the failed operation")
     ctx.bounds = {"alphabet": len(alpha), "max_len": L if ctx.quick else 4, "sequences": len(seqs)}
     items = [(ops, False) for ops in seqs]
     # validate the snapshot emulation against real process deaths on the short sequences
@@ -469,8 +624,19 @@ def run(ctx):
     items += [(ops, True) for ops in real]
     items += [([("setup",)], False), ([("setup",)], True)]
     ctx.bounds["real_crash_sequences"] = len(real)
+    # faulted-operation pass: the last operation of the sequence fails once (one SQL statement raises, every position),
+    # then kill | normal close.  The ending "one further operation commits, then kill" (fault_extras) is NOT enumerated:
+    # the unchanged library leaves the failed operation's transaction open, so the next commit makes its half durable.
+    fl = 2 if ctx.quick else 3
+    small = alphabet(True)
+    fseqs = [list(a) for n in range(1, fl + 1) for a in itertools.product(small, repeat=n)]
+    if not ctx.quick:
+        fseqs += [ops for ops in seqs if len(ops) <= 2 and ops not in fseqs]
+    items += [(ops, "fault") for ops in fseqs]
+    ctx.bounds["fault_sequences"] = len(fseqs)
+    ctx.bounds["fault_max_len"] = fl
     res = ctx.pmap(_work, items, chunk=8)
-    nseq = nexec = nsteps = nt = 0
+    nseq = nexec = nsteps = nt = nfault = 0
     for (ops, _real), r in zip(items, res):
         if r[0] == "skip":
             continue
@@ -480,10 +646,13 @@ def run(ctx):
         if r[0] == "viol":
             ctx.merge_violations([r[1]])
             nexec += r[2]
+        elif _real == "fault":
+            nfault += r[1]
+            nexec += r[2]
         else:
             nsteps += r[1]
             nexec += r[2]
-    ctx.count(states=nseq, transitions=nexec, traces=nexec, evaluations=nexec, nontrivial=nt, sql_steps=nsteps)
+    ctx.count(states=nseq, transitions=nexec, traces=nexec, evaluations=nexec, nontrivial=nt, sql_steps=nsteps, fault_points=nfault)
     ctx.outcomes.update(v["signature"].split("|")[0] for v in ctx.violations.values())
     ctx.outcomes.add("ok")
     for s in seqs[:: max(1, len(seqs) // 4)][:4]:
@@ -499,6 +668,9 @@ def replay(ctx, rep):
     CFG["T"], CFG["S"] = rep.get("T", "T"), rep.get("S", "S")
     ops = [tuple(o) for o in rep["ops"]]
     out = []
+    if rep.get("fault"):
+        r = run_fault_sequence(ops, ())
+        return [r[1]] if r[0] == "viol" else []
     for real in (False, True):
         r = run_setup_crashes(real) if ops == [("setup",)] else run_sequence(ops, real_crash=real)
         if r[0] == "viol":
